@@ -19,9 +19,9 @@ LT = {"fixed": FixedLifetime, "normal": NormalLifetime, "folded": FoldedNormalLi
 CLS = {"simple": SimpleFlowDrivenStock, "inflow": InflowDrivenDSM, "stockdriven": StockDrivenDSM}
 NAMING = {"arrow": process_names_with_arrow, "no_spaces": process_names_no_spaces, "ids": process_ids}
 DIMNAMES = {"t": "Technology", "a": "Alpha", "b": "Beta Region", "c": "Gamma", "e": "Element"}
-PROC_POOL = ["use", "use phase", "waste mgmt.", "re-use (2)", "Fab/rication", "shredder & sorter", "Recycling -> out", "end of life", "market"]
-STOCK_NAMES = ["in use", "landfill (old)", "obsolete-stock", "hibernating"]
-PARAM_NAMES = ["yield", "split share", "lifetime mean", "demand"]
+PROC_POOL = ["use", " sorting", "use phase", "waste mgmt.", "re-use (2)", "Fab/rication", "shredder & sorter", "Recycling -> out", "end of life", "market"]
+STOCK_NAMES = ["in use", "landfill (old) ", "obsolete-stock", "hibernating"]
+PARAM_NAMES = ["yield", "split share", " lifetime mean", "demand"]
 
 
 def _sanitised_distinct(names):
